@@ -180,7 +180,16 @@ def _coalesce_of_objects(text, res):
     (path factoring) is decided differently by the reference model and by the inference code, and
     there is no second evaluator to adjudicate: not judged (counted in the evidence)"""
     toy = TE._T['toy']
-    return ' ?? ' in text and bool(res) and isinstance(res[0], toy.Obj)
+
+    def has_obj(v):
+        if isinstance(v, toy.Obj):
+            return True
+        if isinstance(v, (tuple, list)):
+            return any(has_obj(x) for x in v)
+        if isinstance(v, dict):
+            return any(has_obj(x) for x in v.values())
+        return False
+    return ' ?? ' in text and any(has_obj(v) for v in res[:50])
 
 
 def _root_cause(text):
